@@ -17,6 +17,7 @@ let nt = int_of_nat sim_transports
 let models : state array ref = ref [||]
 let ids : int list array ref = ref [||]          (* ids.(dst): Go datagram ids, parallel to (st_net models.(dst)) *)
 let where : (int, int) Hashtbl.t = Hashtbl.create 97 (* datagram id -> destination transport *)
+let rolls : (int * int, int * int) Hashtbl.t = Hashtbl.create 97
 let mode = ref 'd'
 let errors : string list ref = ref []
 
@@ -26,6 +27,7 @@ let reset () =
   models := Array.init nt (fun _ -> init sim_transports);
   ids := Array.make nt [];
   Hashtbl.reset where;
+  Hashtbl.reset rolls;
   errors := []
 
 let ints_of s sep = List.map int_of_string (List.filter (fun x -> x <> "") (String.split_on_char sep s))
@@ -38,6 +40,23 @@ let index_of id l =
 let rec remove_at i = function
   | [] -> []
   | x :: r -> if i = 0 then r else x :: remove_at (i - 1) r
+
+let fnv (m : coq_N list) : int =
+  List.fold_left (fun h b -> ((h lxor (int_of_n b)) * 16777619) land 0xffffffff) 2166136261 m
+
+let digest m = Printf.sprintf "%d.%08x" (List.length m) (fnv m)
+
+(* rolling content hash per connection, maintained incrementally: (dst, src) -> (messages hashed, hash) *)
+let roll_step (roll : int) (m : coq_N list) : int =
+  let h = ref 2166136261 in
+  for i = 0 to 3 do h := ((!h lxor ((roll lsr (8 * i)) land 0xff)) * 16777619) land 0xffffffff done;
+  List.iter (fun b -> h := ((!h lxor (int_of_n b)) * 16777619) land 0xffffffff) m;
+  !h
+let roll_of (dst : int) (src : int) (deliv : coq_N list list) : int =
+  let (n0, r0) = (match Hashtbl.find_opt rolls (dst, src) with Some x -> x | None -> (0, 0)) in
+  let rec drop k l = if k = 0 then l else (match l with [] -> [] | _ :: t -> drop (k - 1) t) in
+  let r = List.fold_left roll_step r0 (drop n0 deliv) in
+  Hashtbl.replace rolls (dst, src) (List.length deliv, r); r
 
 let event (e : string) : unit =
   let kind = e.[0] in
@@ -54,7 +73,7 @@ let event (e : string) : unit =
       let m' = slice (nat_of_int src) (List.map n_of_int (ints_of sizes '.')) m in
       if List.length (s_done (sndr (getc (nat_of_int src) m'))) <> before + 1 then err ("BADSLICE:" ^ e);
       !models.(dst) <- m'
-  | 'W', [id; src; dst; first; count] ->
+  | 'W', [id; src; dst; first; count; payloads] ->
       let id = int_of_string id and src = int_of_string src and dst = int_of_string dst in
       let count = int_of_string count in
       if count > 0 then begin
@@ -62,6 +81,15 @@ let event (e : string) : unit =
         let m' = send (nat_of_int src) (n_of_dec first) (n_of_int count) m in
         if net_len m' <> net_len m + 1 then err ("BADSEND:" ^ e)
         else begin
+          (* the bytes on the wire under label first+i must be chunk first+i of the model's table *)
+          let chunks = s_chunks (sndr (getc (nat_of_int src) m)) in
+          let f0 = int_of_string first in
+          let ds = String.split_on_char '/' payloads in
+          if List.length ds <> count then err ("BADPAYLOADS:" ^ e)
+          else List.iteri (fun i d ->
+              match List.nth_opt chunks (f0 + i) with
+              | Some ch -> if digest ch.c_data <> d then err (Printf.sprintf "LABEL-%d-CARRIES-OTHER-BYTES:%s" (f0 + i) e)
+              | None -> err ("BADSEND:" ^ e)) ds;
           !models.(dst) <- m';
           !ids.(dst) <- !ids.(dst) @ [id];
           Hashtbl.replace where id dst
@@ -120,18 +148,14 @@ let state_of (t : int) : string =
     let r = rcvr (getc (nat_of_int p) m) in
     let nd = List.length (r_deliv r) in
     if not (r_prefix r = N0 && r_total r = N0 && nd = 0) then
-      ins := (string_of_int p ^ ":" ^ dec_of_n (r_prefix r) ^ ":" ^ dec_of_n (r_total r) ^ ":" ^ string_of_int nd) :: !ins;
+      ins := (string_of_int p ^ ":" ^ dec_of_n (r_prefix r) ^ ":" ^ dec_of_n (r_total r) ^ ":" ^ string_of_int nd ^ ":" ^
+              Printf.sprintf "%08x" (roll_of t p (r_deliv r))) :: !ins;
     let sd = sndr (getc (nat_of_int t) !models.(p)) in
     let nx = List.length (s_chunks sd) in
     if not (s_prefix sd = N0 && nx = 0) then
       outs := (string_of_int p ^ ":" ^ dec_of_n (s_prefix sd) ^ ":" ^ string_of_int nx) :: !outs
   done;
   "T" ^ string_of_int t ^ " m=" ^ dec_of_n (st_acq m) ^ " q=" ^ lst q ^ " in=" ^ lst !ins ^ " out=" ^ lst !outs
-
-let fnv (m : coq_N list) : int =
-  List.fold_left (fun h b -> ((h lxor (int_of_n b)) * 16777619) land 0xffffffff) 2166136261 m
-
-let digest m = Printf.sprintf "%d.%08x" (List.length m) (fnv m)
 
 let final_of (ms : state array) : string =
   let parts = ref [] and mem = ref [] in
